@@ -74,21 +74,24 @@ theorem sendReply_eq (s : State) (r : Resv) (f : Flight) (body : String)
   simp only [hr, bne_self_eq_false, Bool.false_eq_true, ↓reduceIte, hs, hst, Bool.not_true, hgf]
 
 /-- the tail of response / error handling once the reply can be delivered -/
-theorem rtDeliver_eq (s : State) (r : Resv) (f : Flight) (call body : String) (oversize : Bool) (st : RtState)
+theorem rtDeliver_eq (s : State) (r : Resv) (f : Flight) (call body : String) (oversize : Option Nat) (st : RtState)
     (hst : st = .invocationResponse ∨ st = .invocationErrorResponse)
     (hrt : s.rt = some st) (hr : s.resv = some r) (hs : r.replySent = false) (hstr : r.replyStream = true)
     (hf : getFlight s r.caller = some f)
     (hg : s.invFlow.runtimeResponse.arrived ≠ s.invFlow.runtimeResponse.count) :
-    let b := if oversize then "errjson:Function.ResponseSizeTooLarge" else body
+    let b := match oversize with
+      | some size => s!"errjson:Function.ResponseSizeTooLarge:{size}:{maxPayload}"
+      | none => body
     let s1 := setFlight { s with resv := some { r with replySent := true } }
         { f with body := b, g3 := if f.g3 == .fast then .done else f.g3 }
     rtDeliver s call r.k body oversize =
       reply { s1 with rt := some .responseSent,
                       invFlow := { s.invFlow with runtimeResponse := { s.invFlow.runtimeResponse with arrived := s.invFlow.runtimeResponse.arrived + 1 } } }
-        "rt" call (if oversize then "413,RequestEntityTooLarge" else "202") := by
+        "rt" call (if oversize.isSome then "413,RequestEntityTooLarge" else "202") := by
   have hgate : (s.invFlow.runtimeResponse.arrived == s.invFlow.runtimeResponse.count) = false := by simpa using hg
   cases oversize <;> rcases hst with h | h <;> subst h <;>
-    simp only [rtDeliver, Bool.false_eq_true, ↓reduceIte, sendReply_eq s r f _ hr hs hstr hf] <;>
+    simp only [rtDeliver, Bool.false_eq_true, ↓reduceIte, sendReply_eq s r f _ hr hs hstr hf, Option.isSome_some,
+      Option.isSome_none] <;>
     simp only [setFlight, hrt, rtProg, runRtInstrs, flowCall, Latch.walk, hgate, Bool.false_eq_true, ↓reduceIte,
       Bool.and_true, Bool.not_true, bne_iff_ne, ne_eq, not_true_eq_false, Bool.and_false]
 
@@ -97,7 +100,7 @@ theorem rtResponse_running (s : State) (r : Resv) (size : Nat) (h : String)
     (hrt : s.rt = some .running) (hr : s.resv = some r) :
     rtResponse s (some r.k) size h false =
       rtDeliver { s with rt := some .invocationResponse } "response" r.k
-        (if size == 0 then "empty" else s!"bytes:{h}") (decide (size > maxPayload)) := by
+        (if size == 0 then "empty" else s!"bytes:{h}") (if size > maxPayload then some size else none) := by
   simp only [rtResponse, currentId, hr, Option.map_some, Option.isNone_some, Bool.false_eq_true, bne_self_eq_false,
     Bool.or_self, ↓reduceIte, hrt, rtProg, runRtInstrs]
 
